@@ -191,23 +191,63 @@ package keeper
 //@ loop 0: invariant len(validators) == size
 
 // ---- C14: oracle block reward ------------------------------------------------------------------------------
-// Only validators that voted and are oracle-active are rewarded, and what is distributed in the distribution
-// module's books (community fund, validator rewards, proposer remainder) is derived from exactly the integer
-// coins that were transferred from the fee collector - not from the untruncated decimal amount.
+// coin arithmetic of the cosmos-sdk, seen per denom through AmountOf (DecCoins amounts in 10^-18 units): assumed
+//@ spec amt(c sdk.Coins, d Str) Int = ext("Coins.AmountOf", c, d)
+//@ spec damt(c sdk.DecCoins, d Str) Int = ext("DecCoins.AmountOf", c, d)
+//@ axiom coinNonNeg: forall c sdk.Coins, d Str :: { ext("Coins.AmountOf", c, d) } ext("Coins.AmountOf", c, d) >= 0
+//@ axiom decNonNeg: forall c sdk.DecCoins, d Str :: { ext("DecCoins.AmountOf", c, d) } ext("DecCoins.AmountOf", c, d) >= 0
+//@ axiom decFromCoins: forall c sdk.Coins, d Str :: { ext("DecCoins.AmountOf", ext("NewDecCoinsFromCoins", c), d) } ext("DecCoins.AmountOf", ext("NewDecCoinsFromCoins", c), d) == ext("Coins.AmountOf", c, d) * 1000000000000000000
+//@ axiom decMulTrunc: forall c sdk.DecCoins, r Int, d Str :: { ext("DecCoins.AmountOf", ext("DecCoins.MulDecTruncate", c, r), d) } r >= 0 ==> ext("DecCoins.AmountOf", ext("DecCoins.MulDecTruncate", c, r), d) == (ext("DecCoins.AmountOf", c, d) * r) / 1000000000000000000
+//@ axiom decTrunc: forall c sdk.DecCoins, d Str :: { ext("Coins.AmountOf", ext("DecCoins.TruncateDecimal", c), d) } ext("Coins.AmountOf", ext("DecCoins.TruncateDecimal", c), d) == ext("DecCoins.AmountOf", c, d) / 1000000000000000000
+//@ axiom decSub: forall a sdk.DecCoins, b sdk.DecCoins, d Str :: { ext("DecCoins.AmountOf", ext("DecCoins.Sub", a, b), d) } (forall e Str :: ext("DecCoins.AmountOf", a, e) >= ext("DecCoins.AmountOf", b, e)) ==> ext("DecCoins.AmountOf", ext("DecCoins.Sub", a, b), d) == ext("DecCoins.AmountOf", a, d) - ext("DecCoins.AmountOf", b, d)
+// DecCoins.Sub panics when any denom would go negative
+//@ extern (coins github.com/cosmos/cosmos-sdk/types.DecCoins) Sub(coinsB) (result)
+//@ requires forall e Str :: ext("DecCoins.AmountOf", coins, e) >= ext("DecCoins.AmountOf", coinsB, e)
+//@ ensures result == ext("DecCoins.Sub", coins, coinsB)
+//@ ensures forall d Str :: { ext("DecCoins.AmountOf", result, d) } ext("DecCoins.AmountOf", result, d) == ext("DecCoins.AmountOf", coins, d) - ext("DecCoins.AmountOf", coinsB, d)
+
+// prefix sums of the voting power of the rewarded validators
+//@ spec psumP(tr []valWithPower, n Int) Int = n <= 0 ? 0 : psumP(tr, n - 1) + tr[n-1].power
+//@ lemma psumExt induction k: forall a []valWithPower, b []valWithPower, k Int, k2 Int :: { psumP(a, k), psumP(b, k2) } (k == k2 && k <= len(a) && k <= len(b) && (forall j :: 0 <= j && j < k ==> a[j] == b[j])) ==> psumP(a, k) == psumP(b, k2)
+//@ lemma psumStep induction n: forall w []valWithPower, m Int, n Int :: { psumP(w, m), psumP(w, n) } (0 <= m && m < n && n <= len(w) && (forall j :: 0 <= j && j < len(w) ==> w[j].power >= 0)) ==> psumP(w, m) + w[m].power <= psumP(w, n)
+
+// Only validators that voted and are oracle-active are rewarded. The oracle share is the truncated percentage of the
+// WHOLE fee pool; the community tax comes off that share; each rewarded validator gets the share (after tax) times
+// its TRUNCATED power fraction, truncated; the proposer gets what is left over. CONSERVATION: on success, what this
+// call told the distribution module to hand out (community pool + validator rewards + proposer remainder) is, denom
+// by denom, exactly what it moved into the distribution account - and no subtraction ever goes negative (the
+// begin-blocker cannot panic on rounding).
+// Range assumption on CometBFT vote infos: powers between 0 and 2^50, at most 4096 votes.
 //@ func (k Keeper) AllocateTokens
 //@ may_panic
-//@ modifies Bank, Other
-//@ assert before communityTax: oracleReward == ext("NewDecCoinsFromCoins", oracleRewardInt)
-//@ loop 0: invariant forall j :: 0 <= j && j < len(toReward) ==> (exists i :: 0 <= i && i < #i && toReward[j].power == previousVotes[i].Validator.Power)
-// the oracle share is the truncated percentage of the WHOLE fee pool; the community tax comes off that share; each
-// rewarded validator gets the share (after tax) times its TRUNCATED power fraction, truncated; what is left over
-// after all of them is what the proposer gets
+//@ uses psumExt, psumStep
+//@ modifies Bank, Other, DistrReceived, DistrAllocated
+//@ requires len(previousVotes) <= 4096 && (forall j :: 0 <= j && j < len(previousVotes) ==> 0 <= previousVotes[j].Validator.Power && previousVotes[j].Validator.Power <= 1125899906842624)
+//@ ensures err == nil ==> (forall d Str :: DistrAllocated[d] - old(DistrAllocated)[d] == DistrReceived[d] - old(DistrReceived)[d])
 //@ assert after oracleRewardInt: oracleRewardInt == ext("DecCoins.TruncateDecimal", ext("DecCoins.MulDecTruncate", totalFee, wrap64(oracleParams(Store_oracle).OracleRewardPercentage) * 10000000000000000))
+//@ assert before communityTax: oracleReward == ext("NewDecCoinsFromCoins", oracleRewardInt)
 //@ assert after communityFund: communityFund == ext("DecCoins.TruncateDecimal", ext("DecCoins.MulDecTruncate", ext("NewDecCoinsFromCoins", oracleRewardInt), communityTax))
 //@ assert after remaining: remaining == ext("DecCoins.Sub", ext("NewDecCoinsFromCoins", oracleRewardInt), ext("NewDecCoinsFromCoins", communityFund)) && oracleReward == remaining
 //@ assert after powerFraction: totalPower != 0 && powerFraction == (each.power * 1000000000000000000 * 1000000000000000000) / (totalPower * 1000000000000000000)
 //@ assert after reward: reward == ext("DecCoins.MulDecTruncate", oracleReward, powerFraction)
-//@ loop 1: invariant true
+// (arithmetic core, per denom: a validator's truncated reward is at most its exact pro-rata share)
+//@ assert after reward: each.power >= 0 && powerFraction >= 0 && powerFraction * totalPower <= each.power * 1000000000000000000
+//@ assert after reward: forall d Str :: { ext("DecCoins.AmountOf", reward, d) } ext("DecCoins.AmountOf", reward, d) * 1000000000000000000 <= ext("DecCoins.AmountOf", oracleReward, d) * powerFraction
+//@ assert after reward: forall d Str :: { ext("DecCoins.AmountOf", reward, d) } ext("DecCoins.AmountOf", reward, d) * totalPower <= ext("DecCoins.AmountOf", oracleReward, d) * each.power
+//@ assert after reward: psumP(toReward, #i) + each.power <= totalPower && totalPower > 0
+//@ assert after reward: forall d Str :: { ext("DecCoins.AmountOf", reward, d) } ext("DecCoins.AmountOf", oracleReward, d) * each.power <= ext("DecCoins.AmountOf", oracleReward, d) * (totalPower - psumP(toReward, #i))
+//@ assert after reward: forall d Str :: { ext("DecCoins.AmountOf", reward, d) } ext("DecCoins.AmountOf", reward, d) * totalPower <= ext("DecCoins.AmountOf", remaining, d) * totalPower
+//@ assert after reward: forall d Str :: { ext("DecCoins.AmountOf", reward, d) } ext("DecCoins.AmountOf", reward, d) <= ext("DecCoins.AmountOf", remaining, d)
+//@ assert after remaining#2: forall d Str :: { ext("DecCoins.AmountOf", remaining, d) } ext("DecCoins.AmountOf", remaining, d) * totalPower >= ext("DecCoins.AmountOf", oracleReward, d) * (totalPower - psumP(toReward, #i) - each.power)
+//@ assert after remaining#2: psumP(toReward, #i + 1) == psumP(toReward, #i) + each.power
+//@ loop 0: invariant forall j :: 0 <= j && j < len(toReward) ==> (exists i :: 0 <= i && i < #i && toReward[j].power == previousVotes[i].Validator.Power)
+//@ loop 0: invariant len(toReward) <= #i
+//@ loop 0: invariant 0 <= totalPower && totalPower <= #i * 1125899906842624
+//@ loop 0: invariant totalPower == psumP(toReward, len(toReward))
+//@ loop 0: invariant forall j :: 0 <= j && j < len(toReward) ==> toReward[j].power >= 0
+//@ loop 0: invariant DistrReceived == old(DistrReceived) && DistrAllocated == old(DistrAllocated)
+//@ loop 1: invariant forall d Str :: { ext("DecCoins.AmountOf", remaining, d) } ext("DecCoins.AmountOf", remaining, d) * totalPower >= ext("DecCoins.AmountOf", oracleReward, d) * (totalPower - psumP(toReward, #i))
+//@ loop 1: invariant forall d Str :: { ext("DecCoins.AmountOf", remaining, d) } DistrAllocated[d] + ext("DecCoins.AmountOf", remaining, d) == old(DistrAllocated)[d] + DistrReceived[d] - old(DistrReceived)[d]
 
 // ---- C13: data-source fees --------------------------------------------------------------------------------
 // The collector accumulates what has been charged for this request so far (over ALL data sources, not only the
